@@ -253,6 +253,21 @@ fn exec_c05(case: &Case05, obs: &mut Obs) -> Result<(), Failure> {
         } => {
             obs.steps += 1;
             let o = Opts::from_index(*opts);
+            if let ReaderCfg::Refusing(_) = reader {
+                // against the specification fault-free, then what a declined
+                // request may and may not change
+                exec_c05(
+                    &Case05::Msg {
+                        bytes: bytes.clone(),
+                        opts: *opts,
+                        reader: ReaderCfg::Real,
+                        dc_seed: u64::MAX,
+                    },
+                    obs,
+                )?;
+                obs.count("probe:refusing-reader");
+                return check_read_faults("C05", bytes, Some(o), reader, &format!("{}:read-faults", class05(bytes)), obs);
+            }
             let model = spec_decode(bytes, o);
             let real = match decode_msg(bytes, Some(o), reader, false) {
                 Ok(r) => r,
@@ -735,6 +750,8 @@ impl Scenario for C05 {
         for (k, b) in msgs.into_iter().enumerate() {
             let reader = if sm.chance(1, 3) {
                 ReaderCfg::Real
+            } else if sm.chance(1, 8) {
+                draw_refusing(&mut sm, b.len())
             } else {
                 draw_reader(&mut sm, b.len())
             };
@@ -754,7 +771,7 @@ impl Scenario for C05 {
             let from = if b.len() >= 12 && b[0] & 1 != 0 { 12 } else { 0 };
             ctx.check::<C05>(&Case05::Avps {
                 bytes: b[from..].to_vec(),
-                reader,
+                reader: if matches!(reader, ReaderCfg::Refusing(_)) { ReaderCfg::Real } else { reader },
             });
         }
         if let Some(f) = fam {
